@@ -209,7 +209,7 @@ Theorem pipeline_correct : forall ver p f alloc raw entry_rsp ra s0 res,
     /\ ((sp_w p = W64 \/ v_by_index ver = true) -> forall r, In r sysv_callee_saved -> regs sf r = regs s0 r).
 Proof.
   intros ver p f alloc raw sp0 ra s0 res Hlow Hsem Hok [Hrsp Hal Hroom Htop Hra Hregs Hstk] Hsa.
-  unfold c21_lower in Hlow. destruct (rejects p); [discriminate|].
+  unfold c21_lower, c21_lower_v in Hlow. destruct (rejects_v c21_rejects_imul8 p); [discriminate|].
   assert (Hsem' : src_sem (neutralize p) raw = Some res) by (rewrite src_sem_neutralize; [exact Hsem | congruence]).
   set (q := neutralize p) in *.
   assert (Hw : sp_w q = sp_w p) by reflexivity. assert (Hn : sp_nargs q = sp_nargs p) by reflexivity.
